@@ -211,7 +211,9 @@ Definition wz (x : int) : Z :=
   else z - p62 + (two64 - p62).
 
 Inductive zl := zn | zc (h : int) (t : zl).
-Inductive idl := idn | idc (m r : int) (t : idl).
+(* idj = concatenation: long lists are written as a chain of chunks, so that the nesting depth of
+   the literal stays small (the parser is recursive) *)
+Inductive idl := idn | idc (m r : int) (t : idl) | idj (a b : idl).
 Inductive q3l := q3n | q3c (a b : int) (r : bool) (t : q3l).
 Inductive q4l := q4n | q4c (a b : int) (r1 r2 : bool) (t : q4l).
 Inductive b4l := b4n | b4c (a b c d : int) (t : b4l).
@@ -221,7 +223,8 @@ Inductive ful := fun_ | fuc (m r : int) (found : bool) (t : ful).
 Inductive wstate := WNone | WPanic | WDist (f t b s : int) (bin : zl).
 
 Fixpoint of_zl (l : zl) : list Z := match l with zn => [] | zc h t => wz h :: of_zl t end.
-Fixpoint of_idl (l : idl) : list id := match l with idn => [] | idc m r t => (wz m, wz r) :: of_idl t end.
+Fixpoint of_idl (l : idl) : list id :=
+  match l with idn => [] | idc m r t => (wz m, wz r) :: of_idl t | idj a b => of_idl a ++ of_idl b end.
 Fixpoint of_q3l (l : q3l) : list (Z * Z * bool) :=
   match l with q3n => [] | q3c a b r t => (wz a, wz b, r) :: of_q3l t end.
 Fixpoint of_q4l (l : q4l) : list (Z * Z * bool * bool) :=
